@@ -224,8 +224,12 @@ def handleRes (t : List String) : Option String :=
       let probes ← parseQs pq
       let (wOut, st1) := runWarm cfg w warm St.empty
       let bOut := runForked cfg w st1 batch
+      -- a client that gave up (class err / limit) leaves an interleaving-dependent partial cache
+      -- state: the probes then have no deterministic model side (the harness prints the same)
+      let unstable := bOut.any fun l => l.startsWith "B:err" || l.startsWith "B:limit"
       let (_, st2) := runBatch cfg w "B:" false batch st1
       let (pOut, _) := runBatch cfg w "P:" false probes st2
+      let pOut := if unstable then pOut.map (fun _ => "P:~") else pOut
       pure (" | ".intercalate (wOut ++ bOut ++ pOut))
     | _ => none
   | _ => none
